@@ -1,7 +1,7 @@
 (* C07 -- H-Revolve family schedules achieve their cost optimum for any cost vector
    Property theorems only: each proof is one application of a lemma proved in Proofs/, followed by Print Assumptions. *)
 From Coq Require Import ZArith List Bool.
-From CS Require RevCost RevConv RevBridge4 RevolveRun Opt0Table DiskCost DiskCount HRevTable HRevCost HRevCount SeqGenSpec HSeqGenSpec.
+From CS Require RevCost RevConv RevBridge4 RevolveRun Opt0Table DiskCost DiskCount HRevTable HRevCost HRevCount SeqGenSpec HSeqGenSpec HoptGenSpec OptInfGenSpec Opt0GenSpec.
 From CS Require Import Actions NAdvance Multistage Exec Sched RunFacts Projections BasicInv MultistageRun AllocTotal TLBridge MixBridge.
 Import ListNotations.
 Open Scope Z_scope.
@@ -70,6 +70,36 @@ Theorem C07_hrevolve_sequence_is_source :
 Proof. exact (@HSeqGenSpec.hrevolve_is_source). Qed.
 Print Assumptions C07_hrevolve_sequence_is_source.
 End M_C07_hrevolve_sequence_is_source.
+
+(* ... and the cost tables of H-Revolve: get_hopt_table rendered by the translator for two storage levels (Gen/HoptGen.v: assignments into opt[k][l][m] / optp[k][l][m] are hset, reads hget, float(inf) is Inf, l * (l + 1) / 2 exact division), proved equal to HRevSeq.get_hopt_table for all arguments *)
+Module M_C07_hopt_table_is_source.
+Import HoptGenSpec.
+Theorem C07_hopt_table_is_source :
+  forall lmax c0 c1 w0 w1 r0 r1 ub uf : Z,
+         hopt_shape lmax c0 c1 w0 w1 r0 r1 ub uf = HRevSeq.get_hopt_table lmax c0 c1 w0 w1 r0 r1 ub uf.
+Proof. exact (@HoptGenSpec.hopt_shape_is_model). Qed.
+Print Assumptions C07_hopt_table_is_source.
+End M_C07_hopt_table_is_source.
+
+(* ... and the Disk-Revolve table: get_opt_inf_table (one_read_disk = True) rendered by the translator (Gen/OptInfGen.v: the Table is a list that only grows by append), proved equal to RevSeq.get_opt_inf_table for all arguments *)
+Module M_C07_optinf_table_is_source.
+Import OptInfGenSpec.
+Theorem C07_optinf_table_is_source :
+  forall (lmax cm uf ub rd wd : Z) (opt_0 : list (list Z)),
+         optinf_shape lmax cm uf ub rd wd opt_0 = RevSeq.get_opt_inf_table lmax cm uf ub rd wd opt_0.
+Proof. exact (@OptInfGenSpec.optinf_shape_is_model). Qed.
+Print Assumptions C07_optinf_table_is_source.
+End M_C07_optinf_table_is_source.
+
+(* ... and the Revolve table: get_opt_0_table rendered by the translator (Gen/Opt0Gen.v: a list of rows that only grow by append), proved equal to RevSeq.get_opt_0_table for every slot count mmax >= 0 *)
+Module M_C07_opt0_table_is_source.
+Import Opt0GenSpec.
+Theorem C07_opt0_table_is_source :
+  forall lmax mmax uf ub : Z,
+         0 <= mmax -> opt0_shape lmax mmax uf ub = RevSeq.get_opt_0_table lmax mmax uf ub.
+Proof. exact (@Opt0GenSpec.opt0_shape_is_model). Qed.
+Print Assumptions C07_opt0_table_is_source.
+End M_C07_opt0_table_is_source.
 
 (* Revolve on the extracted model, every cost vector with uf > 0: forward steps at exhaustion = N + P s (N-1), P = the step-count DP (Opt0Table.P: minimum over all first splits); reversed steps = N by the run theorem; no DISK traffic (budget 0) *)
 Module M_C07_revolve_forward_total.
